@@ -17,7 +17,7 @@ import os
 import re
 
 HERE = os.path.dirname(os.path.abspath(__file__))
-SRC = [os.path.join(HERE, "..", "harness", "src", f) for f in ("fam_derive.rs", "fam_derive2.rs")]
+SRC = [os.path.join(HERE, "..", "harness", "src", f) for f in ("fam_derive.rs", "fam_derive2.rs", "fam_derive3.rs")]      # fam_derive3.rs: wave 6 (s_c18)
 
 
 class TableError(Exception):
@@ -213,6 +213,8 @@ class Tables:
             return ("opt", self.shape(gen[0]))
         if segs == ["Vec"] and len(gen) == 1:
             return ("seq", self.shape(gen[0]))
+        if segs == ["Box"] and len(gen) == 1:          # wave 6 (s_c18): Box<T> deserializes and shows as T (recursive derived structs)
+            return self.shape(gen[0])
         if ty in self.by_type:
             return ("derived", self.by_type[ty])
         raise TableError("no shape for type " + ty)
